@@ -33,6 +33,8 @@ type c11Scenario struct {
 	class  string
 	// fault: the first write of a winner row in the scenario block fails once (the block is rolled back and retried by the daemon)
 	fault bool
+	// subst: one raw-data answer for a record of the scenario block is another record's bytes (well-formed, wrong hash), once
+	subst bool
 	blocks func(b *drive.Builder, holders []int) []drive.BlockSpec // scenario blocks, built against the forked builder (prev winners tracked there)
 }
 
@@ -154,6 +156,12 @@ func c11Scenarios(era drive.Era) []c11Scenario {
 	out = append(out, c11Scenario{name: fmt.Sprintf("opr/%d-valid+retried-after-transient-fault", W+1), class: "opr-retried", fault: true, blocks: func(b *drive.Builder, _ []int) []drive.BlockSpec {
 		return []drive.BlockSpec{{ExtraOPR: c11OPRs(b, W+1, 300)}}
 	}})
+	for _, n := range []int{W, W + 1} {
+		n := n
+		out = append(out, c11Scenario{name: fmt.Sprintf("opr/%d-valid+one-record-answered-with-another-records-bytes-once", n), class: "opr-substituted-answer", subst: true, blocks: func(b *drive.Builder, _ []int) []drive.BlockSpec {
+			return []drive.BlockSpec{{ExtraOPR: c11OPRs(b, n, 300)}}
+		}})
+	}
 	if era.V20 == 0 {
 		for _, n := range []int{24, 25, 26} {
 			for _, who := range []string{"top-holder", "holder-101", "non-holder", "top-holder-id+1byte", "top-holder-id-31bytes", "empty-id"} {
@@ -339,7 +347,28 @@ func c11One(c *core.Ctx, r *core.Result, w *World, era drive.Era, sc c11Scenario
 				return nil
 			}})
 		}
-		if out := run.SyncTo(bi.h); !out.Reached {
+		opts := drive.SyncOpts{}
+		if sc.subst {
+			if run.D == nil {
+				run.Open(nil)
+			}
+			nEntry := 0
+			opts.OnRequest = func(rq fake.Req) fake.FaultKind {
+				if rq.Kind == "entry" {
+					nEntry++
+					if nEntry == 3 {
+						r.Count("substituted-answers-served", 1)
+						return fake.FaultSubstituted
+					}
+				}
+				return fake.NoFault
+			}
+			opts.FaultPending = func() bool { return nEntry < 3 }
+		}
+		if run.D == nil {
+			run.Open(nil)
+		}
+		if out := run.D.SyncTo(bi.h, opts); !out.Reached {
 			r.Count("inconclusive-"+outcomeClass(out), 1)
 			r.Outcome("block-not-applied")
 			return
